@@ -73,6 +73,10 @@ func legacyMinter(id int64) mtypes.LegacyParams {
 	case 2:
 		p.MinterConfig.Minters = []*mtypes.LegacyMinter{{SequenceId: 1, EndTime: &end1, Type: mtypes.LinearMintingType, LinearMinting: lin},
 			{SequenceId: 2, Type: mtypes.ExponentialStepMintingType, ExponentialStepMinting: exp}}
+	case 4:
+		// sequence ids that do not start at 1 (valid: the first id is positive, the others consecutive) - e.g. after a finished first period was dropped
+		p.MinterConfig.Minters = []*mtypes.LegacyMinter{{SequenceId: 2, EndTime: &end1, Type: mtypes.LinearMintingType, LinearMinting: lin},
+			{SequenceId: 3, EndTime: &end2, Type: mtypes.ExponentialStepMintingType, ExponentialStepMinting: exp}, {SequenceId: 4, Type: mtypes.NoMintingType}}
 	default:
 		p.MinterConfig.Minters = []*mtypes.LegacyMinter{{SequenceId: 1, EndTime: &end1, Type: mtypes.ExponentialStepMintingType, ExponentialStepMinting: exp},
 			{SequenceId: 2, EndTime: &end2, Type: mtypes.LinearMintingType, LinearMinting: lin}, {SequenceId: 3, Type: mtypes.NoMintingType}}
